@@ -234,6 +234,9 @@ def m_dash_get(tr, c):
     g = n.variants[si][1].fields[0]
     atomic_begin(tr)
     tr.emit(f"__CPROVER_assume(!{lk} || g_gate == 9);")
+    hk = tr.cfg.get("dash_get_hook")
+    if hk:
+        hk(tr, c, dm)          # harness ghost: observes the instant of a multi-version-memory lookup
     tr.emit(f"if ({pres}) {{ {lk} = 1; {dd} = {si}; }} else {{ {dd} = {ni}; }}")
     cp = _bind_guard(tr, g, d.idxs, slot)
     atomic_end(tr)
